@@ -114,6 +114,8 @@ contract(
 def lemma_uuid_ints(v16, v32):
     a = core.UUID.from_16_bits(v16)
     b = core.UUID.from_32_bits(v32)
+    assert len(a.to_bytes()) == 2
+    assert len(b.to_bytes()) == 4
     assert a.to_bytes() == bytes([v16 % 256, v16 // 256])
     assert b.to_bytes() == bytes([v32 % 256, (v32 // 256) % 256, (v32 // 65536) % 256, v32 // 16777216])
     # ATT PDU form (Vol 3 Part F 3.2.1): 16-bit stays 16-bit, 32-bit is expanded to 128-bit with the base UUID
@@ -122,6 +124,7 @@ def lemma_uuid_ints(v16, v32):
     assert len(b.to_pdu_bytes()) == 16
     # and the expanded form parses back to an equal UUID that keeps its own (128-bit) width
     c = core.UUID.from_bytes(b.to_pdu_bytes())
+    assert len(c.to_bytes()) == 16
     assert c == b
     assert c.to_bytes() == b.to_pdu_bytes()
     # the earlier objects still serialise with the width they were created with
@@ -144,17 +147,32 @@ lemma(
 
 def lemma_uuid_widths(v):
     # the same 16-bit value in the three representations: all equal, each keeps its width, in any creation order
+    # (proof hints, while the context is still empty: the two high octets of the 32-bit form are zero)
+    assert (v // 65536) % 256 == 0
+    assert v // 16777216 == 0
+    assert (v // 256) % 256 == v // 256
     a32 = core.UUID.from_32_bits(v)
     a16 = core.UUID.from_16_bits(v)
     a128 = core.UUID.from_bytes(core.UUID.BASE_UUID + bytes([v % 256, v // 256, 0, 0]))
-    assert a16 == a32
-    assert a32 == a128
-    assert a16 == a128
+    # (widths first: they also tell the `match len(..)` of uuid_128_bytes which case each object is in)
     assert len(a16.to_bytes()) == 2
     assert len(a32.to_bytes()) == 4
     assert len(a128.to_bytes()) == 16
-    assert a16.to_bytes() == bytes([v % 256, v // 256])
-    assert a32.to_bytes() == bytes([v % 256, v // 256, 0, 0])
+    # (proof hints: byte by byte, then the strings, then the 128-bit expansions)
+    x16 = a16.to_bytes()
+    x32 = a32.to_bytes()
+    assert x16[0] == v % 256
+    assert x16[1] == v // 256
+    assert x32[0] == v % 256
+    assert x32[1] == v // 256
+    assert x32[2] == 0
+    assert x32[3] == 0
+    assert x16 == bytes([v % 256, v // 256])
+    assert x32 == bytes([v % 256, v // 256, 0, 0])
+    assert a128.to_bytes() == core.UUID.BASE_UUID + bytes([v % 256, v // 256, 0, 0])
+    assert a16 == a32
+    assert a32 == a128
+    assert a16 == a128
     # parsing the 16-bit form again (now that equal 32- and 128-bit ones are registered) still gives 16 bits
     again = core.UUID.from_bytes(bytes([v % 256, v // 256]))
     assert again.to_bytes() == bytes([v % 256, v // 256])
